@@ -147,7 +147,9 @@ func (k Keeper) RecvPacket(
 		}
 
 		if _, found = k.clientKeeper.GetClientState(ctx, packet.GetDestChain()); !found {
-			return errorsmod.Wrap(clienttypes.ErrClientNotFound, fromChain)
+			// the packet is genuine but cannot be forwarded: like a packet the whitelist refuses it is
+			// answered with an error acknowledgement (the bare error tells the handler to write one)
+			return clienttypes.ErrClientNotFound
 		}
 
 		k.SetPacketCommitment(ctx, packet.GetSourceChain(), packet.GetDestChain(), packet.GetSequence(), commitment)
